@@ -95,7 +95,7 @@ class _recorder:
 # on_setattr tags
 
 OS_TAGS = ["NO_OP", "user", "validate", "convert", "frozen", "list_cv", "list_vc", "list_user2", "list_uc",
-           "list_cu", "list_empty", "tuple_cv", "list_vf"]
+           "list_cu", "list_empty", "tuple_cv", "list_vf", "nil_user", "list_nil", "list_nil_v", "list_nil_u"]
 CLS_ONLY = ["pipe_cv"]
 
 
@@ -107,6 +107,8 @@ def hooks_model(tag, uid):
         "list_vc": ["HValidate", "HConvert"], "list_user2": [H("h1"), "HValidate", H("h2")],
         "list_uc": [H("h"), "HConvert"], "list_cu": ["HConvert", H("h")], "list_empty": [],
         "list_vf": ["HValidate", "HFrozen"],
+        "nil_user": [H("nil_h")], "list_nil": [H("nil_h")], "list_nil_v": [H("nil_h"), "HValidate"],
+        "list_nil_u": [H("nil_h"), H("h")],
     }[tag]
 
 
@@ -125,7 +127,37 @@ def resolve(tag, uid):
         "list_user2": lambda: [h("h1"), setters.validate, h("h2")],
         "list_uc": lambda: [h("h"), setters.convert], "list_cu": lambda: [setters.convert, h("h")],
         "list_empty": lambda: [], "list_vf": lambda: [setters.validate, setters.frozen],
+        "nil_user": lambda: mk_nil_hook("nil_h_" + uid), "list_nil": lambda: [mk_nil_hook("nil_h_" + uid)],
+        "list_nil_v": lambda: [mk_nil_hook("nil_h_" + uid), setters.validate],
+        "list_nil_u": lambda: [mk_nil_hook("nil_h_" + uid), h("h")],
     }[tag]()
+
+
+def mk_nil_hook(hn):
+    """A hook without a return statement: the assigned value becomes None."""
+    def hook(inst, a, value):
+        g.REC.cb(("hook", a.name, hn, value))
+    hook.sym = hn
+    return hook
+
+
+def mk_nil_converter(fld, fn, kind):
+    """A "blank -> None" style converter: reports its call, returns None (symbol prefix nil_)."""
+    if kind[0] == "plain":
+        def conv(v):
+            g.REC.cb(("conv", fld, fn, [v]))
+        conv.sym, conv.ann = fn, None
+        return conv
+    _, ts, tf, _ = kind
+
+    def conv(v, *extra):
+        g.REC.cb(("conv", fld, fn, [v] + list(extra)))
+    conv.sym, conv.ann = fn, None
+    return attr.Converter(conv, takes_self=ts, takes_field=tf)
+
+
+def conv_sym(f):
+    return ("nil_c_" if f.get("conv_nil") else "c_") + f["uid"]
 
 
 def enc_hooks(hs):
@@ -138,7 +170,7 @@ def enc_cls_os(tag, uid):
     if tag == "NO_OP":
         return "COsNoOp"
     hs = hooks_model(tag, uid)
-    if tag in ("validate", "convert", "frozen", "user"):
+    if tag in ("validate", "convert", "frozen", "user", "nil_user"):
         return "(COsSingle (%s))" % hs[0] if " " in hs[0] else "(COsSingle %s)" % hs[0]
     return "(COsPipe %s)" % enc_hooks(hs)
 
@@ -165,6 +197,7 @@ def gen_field(rng, name, uid, p_hook):
     f["default"] = None if r < 0.45 else ("value" if r < 0.75 else ["factory", rng.random() < 0.4])
     f["init"] = rng.random() < 0.85
     f["converter"] = rng.choice(CONV_KINDS)
+    f["conv_nil"] = f["converter"] is not None and rng.random() < 0.2
     f["validator"] = rng.random() < 0.45
     f["on_setattr"] = rng.choice(OS_TAGS) if rng.random() < p_hook else None
     return f
@@ -247,6 +280,16 @@ def gen_spec(rng, uid, base, force=None):
             f["converter"] = None if hooks == "validate_only" else rng.choice(CONV_KINDS[2:])
     elif hooks == "explicit":
         s["on_setattr"] = rng.choice([t for t in OS_TAGS + CLS_ONLY if t != "NO_OP"])
+    elif hooks == "noinit_field":
+        # a field-level hook on a field that takes no part in __init__ (init=False, no default)
+        if not s["fields"]:
+            s["fields"] = [gen_field(rng, rng.choice(NAMES), uid, 0.0)]
+        s["on_setattr"] = None if s["api"] == "attrs" or s["frozen"] else "NO_OP"
+        for f in s["fields"]:
+            f["on_setattr"] = None
+        f0 = rng.choice(s["fields"])
+        f0["init"], f0["default"] = False, None
+        f0["on_setattr"] = rng.choice(OS_TAGS)
     elif hooks == "noop_cls":
         s["on_setattr"] = "NO_OP"
         for f in s["fields"]:
@@ -286,6 +329,10 @@ TEMPLATES = [
     [{"hooks": "none", "frozen": False}, {"hooks": "convert_only", "frozen": False, "user_setattr": False}],
     [{"hooks": "validate_only", "frozen": False, "user_setattr": False, "api": "attrs"}],
     [{"hooks": "convert_novalid", "frozen": False, "user_setattr": False, "api": "attrs"}],
+    # frozen (own / inherited) with a hook on an init=False field without default (F7)
+    [{"frozen": True, "hooks": "noinit_field", "user_setattr": False}],
+    [{"frozen": True, "hooks": "none", "user_setattr": False}, {"frozen": False, "hooks": "noinit_field", "user_setattr": False}],
+    [{"frozen": False, "hooks": "noinit_field", "user_setattr": False}],
     # frozen=True on a class with a detected body __setattr__
     [{"frozen": True, "user_setattr": True, "auto_detect": True, "hooks": "none"}],
     # define(on_setattr=NO_OP) below a frozen class is fine
@@ -330,7 +377,8 @@ class Built:
             if not f["init"]:
                 kw["init"] = False
             if f["converter"] is not None:
-                kw["converter"] = g.mk_converter(f["name"], "c_" + fu, tuple(f["converter"]))
+                mk = mk_nil_converter if f.get("conv_nil") else g.mk_converter
+                kw["converter"] = mk(f["name"], conv_sym(f), tuple(f["converter"]))
             if f["validator"]:
                 kw["validator"] = g.mk_validator(f["name"], "v_" + fu)
             if f["on_setattr"] is not None:
@@ -408,9 +456,9 @@ def enc_attr_from_spec(f):
     if c is None:
         ck = "CNone"
     elif c[0] == "plain":
-        ck = "(CPlain %s %s)" % (q("c_" + f["uid"]), b(c[1]))
+        ck = "(CPlain %s %s)" % (q(conv_sym(f)), b(c[1]))
     else:
-        ck = "(CConverter %s %s %s %s)" % (q("c_" + f["uid"]), b(c[1]), b(c[2]), b(c[3]))
+        ck = "(CConverter %s %s %s %s)" % (q(conv_sym(f)), b(c[1]), b(c[2]), b(c[3]))
     return ("(Build_attribute %s %s %s true false None false None None %s None %s true false %s (Some %s))"
             % (q(f["name"]), dk, vk, b(f["init"]), ck, enc_fld_os(f["on_setattr"], f["uid"]),
                q(f["name"].lstrip("_"))))
@@ -538,16 +586,24 @@ def same(a, c):
 
 
 def run_history(bt, kw, fb, names, ops, fault_at, von, kind):
-    """Returns (coq term of the seen list, json, number of callbacks)."""
+    """ops: (name, token, same): same=True assigns back the very object currently stored under that name
+    (obj.f = obj.f; what obj.f += ... does for containers), token when nothing is stored.
+    Returns (coq term of the ops as executed, coq term of the seen list, json, number of callbacks)."""
     from attr import _config
     o = make_instance(bt, kw, fb)
     REC = g.REC
     REC.reset(fault_at, kind)
     prev = read_state(o, names)
-    seen_t, seen_js = [], []
+    seen_t, seen_js, ops_t = [], [], []
     _config._run_validators = von
     try:
-        for name, v in ops:
+        for name, tok, same_obj in ops:
+            v = tok
+            if same_obj:
+                cur_v = getattr(o, name, g.UNSET)
+                if cur_v is not g.UNSET:
+                    v = cur_v
+            ops_t.append(pair(q(name), g.enc_val(v)))
             n0 = len(REC.trace)
             try:
                 setattr(o, name, v)
@@ -559,22 +615,17 @@ def run_history(bt, kw, fb, names, ops, fault_at, von, kind):
                     tag_t, tag_js = "(OExc %s)" % q("foreign marker"), "a different exception object"
             except BaseException as e:
                 tag_t, tag_js = "(OExc %s)" % q(type(e).__name__), "exception " + type(e).__name__
-            _config._run_validators = True
             cur = read_state(o, names)
-            _config._run_validators = von
             changed = [c for p, c in zip(prev, cur) if not same(p[1], c[1])]
             evs = REC.trace[n0:]
             seen_t.append("(%s, %s, %s)" % (tag_t, enc_state(changed), lst(g.enc_event(e) for e in evs)))
-            seen_js.append({"assign": name, "outcome": tag_js, "changed": js_state(changed),
+            seen_js.append({"assign": name, "value": ("the stored object: " if same_obj and v is not tok else "") + g.js_val(v),
+                            "outcome": tag_js, "changed": js_state(changed),
                             "callbacks": [g.js_event(e) for e in evs]})
             prev = cur
     finally:
         _config._run_validators = True
-    return lst(seen_t), seen_js, len(REC.trace)
-
-
-def enc_ops(ops):
-    return lst(pair(q(n), g.enc_val(v)) for n, v in ops)
+    return lst(ops_t), lst(seen_t), seen_js, len(REC.trace)
 
 
 def gen_histories(rng, names, hooked, tier, counter):
@@ -588,16 +639,17 @@ def gen_histories(rng, names, hooked, tier, counter):
     seqs = []
     first = names[:]
     rng.shuffle(first)
-    seqs.append([(n, tok()) for n in first[:max_len]])
+    seqs.append([(n, tok(), rng.random() < 0.25) for n in first[:max_len]])
     weights = [3 if n in hooked else 1 for n in names]
     for _ in range(n_seq - 1):
         ln = rng.randint(1, max_len)
         seq = []
         for _i in range(ln):
-            if seq and rng.random() < 0.3:
-                seq.append((seq[-1][0], tok()))          # repeated assignment to the same name
+            if seq and rng.random() < 0.35:
+                # again the same name: a new value, or the object that is stored there now
+                seq.append((seq[-1][0], tok(), rng.random() < 0.5))
             else:
-                seq.append((rng.choices(names, weights)[0], tok()))
+                seq.append((rng.choices(names, weights)[0], tok(), rng.random() < 0.2))
         seqs.append(seq)
     return seqs
 
@@ -680,26 +732,24 @@ def cases_for(bt, sub_seed, tier):
     runs_t, seen = [], []
     seqs = gen_histories(rng, names, hooked, tier, counter)
     for si, ops in enumerate(seqs):
-        ops_t = enc_ops(ops)
-        t, js, n = run_history(bt, kw, fb, names, ops, None, True, 0)
-        runs_t.append("(Build_run true None %s %s)" % (ops_t, t))
-        seen.append({"ops": [(n_, repr(v)) for n_, v in ops], "validators": True, "fault": None, "steps": js})
+        ops_js = [(n_, "stored object" if sm else repr(v)) for n_, v, sm in ops]
+        ot, t, js, n = run_history(bt, kw, fb, names, ops, None, True, 0)
+        runs_t.append("(Build_run true None %s %s)" % (ot, t))
+        seen.append({"ops": ops_js, "validators": True, "fault": None, "steps": js})
         for j in range(n):
             kind = (j + si) % len(KINDS)
-            t2, js2, _ = run_history(bt, kw, fb, names, ops, j, True, kind)
-            runs_t.append("(Build_run true (Some %d) %s %s)" % (j, ops_t, t2))
-            seen.append({"ops": [(n_, repr(v)) for n_, v in ops], "validators": True,
-                         "fault": "%d:%s" % (j, KINDS[kind].__name__), "steps": js2})
+            ot2, t2, js2, _ = run_history(bt, kw, fb, names, ops, j, True, kind)
+            runs_t.append("(Build_run true (Some %d) %s %s)" % (j, ot2, t2))
+            seen.append({"ops": ops_js, "validators": True, "fault": "%d:%s" % (j, KINDS[kind].__name__), "steps": js2})
         if si == 0 or (si == 1 and tier == "thorough"):
-            t3, js3, n3 = run_history(bt, kw, fb, names, ops, None, False, 0)
-            runs_t.append("(Build_run false None %s %s)" % (ops_t, t3))
-            seen.append({"ops": [(n_, repr(v)) for n_, v in ops], "validators": False, "fault": None, "steps": js3})
+            ot3, t3, js3, n3 = run_history(bt, kw, fb, names, ops, None, False, 0)
+            runs_t.append("(Build_run false None %s %s)" % (ot3, t3))
+            seen.append({"ops": ops_js, "validators": False, "fault": None, "steps": js3})
             if n3:
                 j = rng.randrange(n3)
-                t4, js4, _ = run_history(bt, kw, fb, names, ops, j, False, 1)
-                runs_t.append("(Build_run false (Some %d) %s %s)" % (j, ops_t, t4))
-                seen.append({"ops": [(n_, repr(v)) for n_, v in ops], "validators": False,
-                             "fault": "%d:KeyMarker" % j, "steps": js4})
+                ot4, t4, js4, _ = run_history(bt, kw, fb, names, ops, j, False, 1)
+                runs_t.append("(Build_run false (Some %d) %s %s)" % (j, ot4, t4))
+                seen.append({"ops": ops_js, "validators": False, "fault": "%d:KeyMarker" % j, "steps": js4})
     meta_t, meta_js = meta_entries(bt, kw, fb, counter)
     shapes = []
     if confused_shape(cls):
